@@ -647,7 +647,7 @@ class ExcelModel:
 
         cycles = list(simple_cycles(dmap.succ, skip_nodes=skip_nodes))
         cycles_nodes = Counter(sum(cycles, []))
-        for cycle in sorted(map(set, cycles)):
+        for cycle in sorted(map(set, cycles), key=lambda c: (len(c), sorted(map(str, c)))):
             cycles_nodes.subtract(cycle)
             active_nodes = {k for k, v in cycles_nodes.items() if v}
             for k in sorted(cycle.intersection(f_nodes)):
